@@ -4,6 +4,7 @@ import (
 	"bytes"
 	"encoding/json"
 	"fmt"
+	"io"
 	"net"
 	"net/http"
 	"os"
@@ -71,10 +72,20 @@ func c12Server(c *fw.Ctx) (string, string) {
 			c12Err = fmt.Sprint("server ended: ", err)
 		}()
 		c12URL = "http://" + addr
+		// the port was chosen by listen-and-close: make sure the server that answers is OURS (another worker
+		// could have been given the same port in between) by asking it for a marker file only we have
+		marker := fmt.Sprintf("marker-%d-%d.txt", os.Getpid(), time.Now().UnixNano())
+		os.WriteFile(filepath.Join(c12Root, marker), []byte("x"), 0644)
 		for i := 0; i < 200; i++ {
-			conn, err := net.DialTimeout("tcp", addr, 100*time.Millisecond)
+			resp, err := http.Get(c12URL + "/files?pattern=" + marker)
 			if err == nil {
-				conn.Close()
+				b, _ := io.ReadAll(resp.Body)
+				resp.Body.Close()
+				if strings.TrimSpace(string(b)) == marker {
+					return
+				}
+				c12Err = "the server answering on " + addr + " is not the one this worker started"
+				c12URL = ""
 				return
 			}
 			time.Sleep(25 * time.Millisecond)
